@@ -512,10 +512,10 @@ func (runInfo *runInfoStruct) runForSliceStmt(stmt *ast.ForStmt, value reflect.V
 		if iv.Kind() == reflect.Interface && !iv.IsNil() {
 			iv = iv.Elem()
 		}
-		if iv.Kind() == reflect.Ptr {
+		if iv.Kind() == reflect.Ptr && !iv.IsNil() {
 			iv = iv.Elem()
 		}
-		runInfo.env.DefineValue(stmt.Vars[0], iv)
+		runInfo.env.DefineValue(stmt.Vars[0], copyOfElement(iv))
 
 		runInfo.stmt = stmt.Stmt
 		runInfo.runSingleStmt()
@@ -603,7 +603,7 @@ func (runInfo *runInfoStruct) runForChanStmt(stmt *ast.ForStmt, value reflect.Va
 		if runInfo.rv.Kind() == reflect.Interface && !runInfo.rv.IsNil() {
 			runInfo.rv = runInfo.rv.Elem()
 		}
-		if runInfo.rv.Kind() == reflect.Ptr {
+		if runInfo.rv.Kind() == reflect.Ptr && !runInfo.rv.IsNil() {
 			runInfo.rv = runInfo.rv.Elem()
 		}
 
